@@ -7,11 +7,14 @@ A grid is described by a JSON-able *spec* (a dict) and built by :func:`build`:
      "n": [nx(, ny(, nz))],
      "pert": [[node, [ox, oy(, oz)]], ...], node offsets in units of 0.1*h per axis
                                             (h = 1/n in that axis); lattice {0,+-1}^d
+     "set": [[node, [x, y(, z)]], ...],     absolute position of a node in unit-box coordinates
+                                            (used for valid NON-CONVEX cells, e.g. dart
+                                            quadrilaterals; validity is checked exactly)
      "map": name in AFFINE,                 affine image x -> A x + b of all nodes
      "embed": name in EMBED,                rigid motion of a 1-d / 2-d grid into 3-d
      "scale": s}                            uniform scaling x -> s x of all nodes
 
-The order of application is: perturb, affine map, embed, scale, ``compute_geometry``.
+The order of application is: perturb, set, affine map, embed, scale, ``compute_geometry``.
 
 Planarity: node perturbations of hexahedra make faces non-planar (linear exactness is
 not a property of the methods there), so :func:`spec_ok` rejects ``pert`` on 3-d
@@ -71,6 +74,8 @@ def name(spec) -> str:
     s = k + "(" + ",".join(str(i) for i in spec["n"]) + ")"
     if spec.get("pert"):
         s += ("~np~" if spec.get("nonplanar_ok") else "~") + ";".join(f"{i}:{','.join(str(o) for o in off)}" for i, off in spec["pert"])
+    if spec.get("set"):
+        s += "!" + ";".join(f"{i}:{','.join(f'{o:g}' for o in pos)}" for i, pos in spec["set"])
     if spec.get("map", "id") != "id":
         s += "@" + spec["map"]
     if spec.get("embed", "none") != "none":
@@ -141,6 +146,8 @@ def build(spec):
     h = 1.0 / np.array(spec["n"], float)
     for i, off in spec.get("pert", []):
         nodes[:d, int(i)] += 0.1 * h * np.array(off, float)
+    for i, pos in spec.get("set", []):
+        nodes[:d, int(i)] = np.array(pos, float)
     A, b = AFFINE[spec.get("map", "id")]
     if spec.get("map", "id") != "id":
         Ad = np.eye(3)
@@ -157,20 +164,66 @@ def build(spec):
     g.compute_geometry()
     if not np.all(g.cell_volumes > 0):
         raise RuntimeError("invalid grid spec: non-positive cell volume")
+    if spec.get("set"):
+        _check_valid(g, spec)
     return g
+
+
+def _check_valid(g, spec):
+    """Exact validity test for grids with freely placed nodes (possibly non-convex
+    cells): positive volumes, volumes add up to the measure of the (affinely mapped,
+    scaled) unit box, every cell closed (sum of outward area-weighted normals = 0), and
+    in 2-d no cell boundary self-intersects (all proper edge pairs are disjoint)."""
+    d = g.dim
+    A, _ = AFFINE[spec.get("map", "id")]
+    measure = abs(np.linalg.det(A[:d, :d])) * float(spec.get("scale", 1)) ** d
+    if abs(g.cell_volumes.sum() - measure) > 1e-12 * measure:
+        raise RuntimeError("invalid grid spec: cell volumes do not add up to the domain measure")
+    cf = g.cell_faces.tocsc()
+    for c in range(g.num_cells):
+        sl = slice(cf.indptr[c], cf.indptr[c + 1])
+        tot = (g.face_normals[:, cf.indices[sl]] * cf.data[sl]).sum(axis=1)
+        if np.abs(tot).max() > 1e-12 * np.abs(g.face_normals).max():
+            raise RuntimeError("invalid grid spec: cell is not closed")
+    if d == 2 and spec.get("embed", "none") == "none":
+        fn = g.face_nodes.tocsc()
+
+        def orient(p, q, r):
+            return (q[0] - p[0]) * (r[1] - p[1]) - (q[1] - p[1]) * (r[0] - p[0])
+
+        for c in range(g.num_cells):
+            fs = cf.indices[cf.indptr[c] : cf.indptr[c + 1]]
+            segs = [fn.indices[fn.indptr[f] : fn.indptr[f + 1]] for f in fs]
+            for i in range(len(segs)):
+                for j in range(i + 1, len(segs)):
+                    if set(segs[i]) & set(segs[j]):
+                        continue
+                    p1, p2 = g.nodes[:2, segs[i][0]], g.nodes[:2, segs[i][1]]
+                    p3, p4 = g.nodes[:2, segs[j][0]], g.nodes[:2, segs[j][1]]
+                    if orient(p1, p2, p3) * orient(p1, p2, p4) < 0 and orient(p3, p4, p1) * orient(p3, p4, p2) < 0:
+                        raise RuntimeError("invalid grid spec: cell boundary self-intersects")
+
+
+def nonconvex_cells(g) -> list:
+    """Cells (2-d) whose centroid lies on the outer side of one of their own faces."""
+    cf = g.cell_faces.tocoo()
+    v = g.face_centers[:, cf.row] - g.cell_centers[:, cf.col]
+    s = np.einsum("ij,ij->j", v, g.face_normals[:, cf.row]) * cf.data
+    return sorted(set(int(c) for c in cf.col[s <= 0]))
 
 
 def outward_sign(g) -> np.ndarray:
     """+1 / -1 per boundary face (0 on interior faces): does the face normal point out
-    of the single neighbouring cell? Computed from geometry, not from ``cell_faces``."""
+    of the domain? Computed from geometry only: all grids of this alphabet cover a convex
+    domain (affine image of a box, up to 0.1h node offsets), so the outward normal of a
+    boundary face satisfies n . (x_f - c) > 0 with c the mean of the boundary face
+    centres. (A cell-centre based test would be wrong for non-convex cells.)"""
     sgn = np.zeros(g.num_faces)
-    cf = g.cell_faces.tocsc()
-    fc = cf.tocsr()
-    for f in range(g.num_faces):
-        cells = fc.indices[fc.indptr[f] : fc.indptr[f + 1]]
-        if cells.size == 1:
-            v = g.face_centers[:, f] - g.cell_centers[:, cells[0]]
-            sgn[f] = 1.0 if float(v @ g.face_normals[:, f]) > 0 else -1.0
+    bf = boundary_faces(g)
+    c = g.face_centers[:, bf].mean(axis=1)
+    for f in bf:
+        v = g.face_centers[:, f] - c
+        sgn[f] = 1.0 if float(v @ g.face_normals[:, f]) > 0 else -1.0
     return sgn
 
 
